@@ -70,3 +70,31 @@ Qed.
 
 Lemma orders_ok_true : orders_ok = true.
 Proof. vm_compute. reflexivity. Qed.
+
+(* The documented meaning of the constructor arguments of the two composite contexts (hand-written
+   specification; "x or d" = "d if x is None"). *)
+Definition spec_composite_args (k : kid) (args : list val) : option (list (cid * list val)) :=
+  match k, args with
+  | k_fast_computations, [a; b; c] =>
+      Some [(c__fast_covar_root_decomposition, [a]); (c__fast_log_prob, [b]); (c__fast_solves, [c])]
+  | k_linalg_dtypes, [d; s; c] =>
+      Some [(c__linalg_dtype_symeig, [if is_none s then d else s]);
+            (c__linalg_dtype_cholesky, [if is_none c then d else c])]
+  | _, _ => None
+  end.
+
+Lemma composite_args_law : forall k args g ps parts,
+  spec_composite_args k args = Some parts -> new k args g = Some ps ->
+  map fst ps = map fst parts /\
+  Forall2 (fun p q => pinit (fst q) (snd q) (get (fst q) g) = Some (snd p)) ps parts.
+Proof.
+  intros k args g ps parts Hs Hn.
+  destruct k; cbn in Hs; try discriminate Hs;
+  repeat (destruct args as [|? args]; try discriminate Hs);
+  inversion Hs; subst; clear Hs; cbn in Hn;
+  repeat match type of Hn with
+         | match ?x with Some _ => _ | None => _ end = _ => destruct x eqn:?; try discriminate Hn
+         end;
+  inversion Hn; subst; clear Hn; cbn; (split; [reflexivity|]);
+  repeat constructor; cbn; assumption.
+Qed.
